@@ -180,6 +180,45 @@ def status_facts(p, upto, place_pred):
     return eq, ne
 
 
+def option_fact(a):
+    """(subject term, 'Some'|'None'|'Ok'|'Err') when atom `a` decides the variant of an Option/Result,
+    whichever way the source spelled it (match / if let / is_some / is_none / `?` / is_ok / is_err)"""
+    if a.kind != 'atom':
+        return None
+    k, m = option_decision(a.d['term'])
+    if k is None or k[0] != 'od':
+        return None
+    v = m.get(a.d['outcome'], a.d['outcome'])
+    if v in ('Some', 'None', 'Ok', 'Err'):
+        return (k[1], v)
+    return None
+
+
+def bool_fact(a):
+    """(boolean subject term with negations peeled, truth value) when atom `a` decides a boolean,
+    including through `b.then_some(x)` / `b.then(f)` being tested for Some/None"""
+    if a.kind != 'atom':
+        return None
+    t, o = a.d['term'], a.d['outcome']
+    import mirlib as _m
+    k, m = _m._option_decision(t)
+    if k is not None:
+        v = m.get(o, o)
+        sub = k[1]
+        if v in ('Some', 'None') and sub[0] == 'call' and len(sub[2]) == 2 and _m.is_bool_then(sub[1]):
+            b, val = sub[2][0], v == 'Some'
+            while b[0] == 'un' and b[1] == 'Not':
+                b, val = b[2], not val
+            return (b, val)
+        return None
+    if o not in ('true', 'false'):
+        return None
+    val = o == 'true'
+    while t[0] == 'un' and t[1] == 'Not':
+        t, val = t[2], not val
+    return (t, val)
+
+
 def site(fn, e):
     return f"{fn.b['file']}:{e.line if hasattr(e, 'line') else e}"
 
